@@ -253,6 +253,7 @@ func TestCheck(t *testing.T) {
 	bubble.RegisterBlocks()
 	r := report.Start(t, "C02")
 	defer r.Finish()
+	bubble.WatchDeadlocks(3, func(frame, dump string) { r.DeadlockVerdict("c02", frame, dump) })
 
 	err := bubble.Run(t, func(t *testing.T) {
 		now := bubble.NowMs()
